@@ -90,8 +90,13 @@ class Ctx:
         self.bad(rule, construct, where, what, signature=nf.show(d, 300), **det)
         return False
 
+    def has_new_violation(self):
+        """a violated obligation that is not one of the listed known findings"""
+        kf = [e for e in load_known().get("findings", []) if e.get("property") == self.prop]
+        return any(o.status == "violated" and not any(_match(e, o) for e in kf) for o in self.obligs)
+
     def floor(self, rule, found, floor, what):
-        if any(o.status == "violated" for o in self.obligs):
+        if self.has_new_violation():
             return  # a positive finding is reported as such; dependent instances may be missing
         if found < floor:
             raise AnalysisError(f"{rule}: only {found} instance(s) of '{what}' found, floor is {floor} - anchors moved, rule would pass vacuously")
